@@ -143,6 +143,8 @@ def _arch(rng):
     depth = rng.choice([16, 128, "inf"])
     layout = {"lane": rng.random() < 0.5, "red_first": rng.random() < 0.5}
     l2bw = rng.choice([256, 2048])
+    # the level holding the cache is sometimes multi-instance too (two source memories with different counts)
+    chip_name = "Chip[0..%d]" % rng.choice([1, 3]) if rng.random() < 0.3 else "Chip"
     for cfg in ("cfgA", "cfgB"):
         freq = rng.choice([1000, 2048, 5000, 10 ** 9])
         local_pe = [
@@ -176,7 +178,7 @@ def _arch(rng):
         # level down, the buffet in the PE (one traffic path per tensor)
         cfgs[cfg] = [{"name": "System", "attributes": {"clock_frequency": freq},
                       "local": [{"name": "DRAM", "class": "DRAM", "attributes": {"bandwidth": bw}}],
-                      "subtree": [{"name": "Chip",
+                      "subtree": [{"name": chip_name,
                                    "local": [{"name": "L2", "class": "Cache", "attributes": {"width": 64, "depth": 1024, "bandwidth": l2bw}}],
                                    "subtree": subtree}]}]
         info[cfg] = {"freq": freq, "inst": inst, "bw": {"DRAM": bw}}
